@@ -721,6 +721,10 @@ class StrategyBase(Node):
 
                 # avoid useless update call
                 if c._issec and not c._needupdate:
+                    # (a position opened and closed again since the last update is idle
+                    # already, but the spread it paid today still counts)
+                    if self._bidoffer_set and c.now == date:
+                        bidoffer_paid += c._bidoffer_paid
                     continue
 
                 c.update(date, data, inow)
